@@ -129,27 +129,33 @@ def run(check, an: Analysis):
                        'the only thing awaited is the completion of a child: %s'
                        % sorted(w or '?' for w in waits))
     # ---- M ------------------------------------------------------------------
-    for name in ('_close_children', '_close_volatile', '_await_children'):
-        fn = an.method(SCOPE, name)
-        for node in ast.walk(fn.node):
-            if isinstance(node, ast.For):
-                text = ast.unparse(node.iter)
-                if '_children' not in text:
-                    continue
-                ok = (isinstance(node.iter, ast.Call) and (
-                    (isinstance(node.iter.func, ast.Attribute)
-                     and node.iter.func.attr == 'copy')
-                    or ast.unparse(node.iter.func) in ('list', 'tuple'))) or (
-                    isinstance(node.iter, ast.Subscript)
-                    and isinstance(node.iter.slice, ast.Slice))
-                check.instance('M', '%s:iterates-copy' % name, ok,
-                               '%s:%d' % (fn.module.relpath, node.lineno),
-                               'loop over `%s`: children remove themselves while being '
-                               'closed/awaited' % text)
-        closes = [n for n in ast.walk(fn.node) if isinstance(n, ast.Call)
-                  and isinstance(n.func, ast.Attribute) and n.func.attr == '__close__']
+    COPIES = ('%s.copy()', 'list(%s)', '%s[:]', 'tuple(%s)')
+    for name, attr in (('_close_children', 'self._children'),
+                       ('_close_volatile', 'self._volatile_children'),
+                       ('_await_children', 'self._children')):
+        callee = an.callee(SCOPE, name)
+        verdict, n_iter, bad, closes = True, 0, None, 0
+        for path in an.paths(callee):
+            for index, event in enumerate(path.events):
+                if event.kind in ('iter-next', 'iter-end'):
+                    text = rules.value_text(path, index, event.node.iter)
+                    if '_children' not in text:
+                        continue
+                    n_iter += 1
+                    if text not in [c % attr for c in COPIES]:
+                        verdict = False
+                        bad = bad or (path, index)
+                elif event.kind in ('call', 'enter') and isinstance(event.node, ast.Call) \
+                        and isinstance(event.node.func, ast.Attribute) and \
+                        event.node.func.attr == '__close__':
+                    closes += 1
+        check.instance('M', '%s:iterates-copy' % name, verdict and n_iter > 0,
+                       where_fn(callee.fn), 'the loop runs over a copy of `%s`: children '
+                       'remove themselves while being closed/awaited (%d iteration events)'
+                       % (attr, n_iter), path=rules.path_lines(*bad) if bad else None,
+                       analysed=n_iter)
         if name != '_await_children':
-            check.instance('M', '%s:closes-each' % name, len(closes) == 1, where_fn(fn),
+            check.instance('M', '%s:closes-each' % name, closes > 0, where_fn(callee.fn),
                            'each child of the list is closed')
     check.floor('M', 5)
     # ---- R ------------------------------------------------------------------
@@ -238,8 +244,8 @@ def run(check, an: Analysis):
         dones = [e for e in path.events if is_call_to(e, '__set_done__')]
         closes = [e for e in path.events if e.kind == 'call' and isinstance(
             e.node, ast.Call) and ast.unparse(e.node.func) == 'self.__runner__.close']
-        started_test = [e for e in path.events if e.kind == 'test'
-                        and '__runner__' in ast.unparse(e.node)]
+        started_test = [e for i, e in enumerate(path.events) if e.kind == 'test'
+                        and '__runner__' in rules.value_text(path, i, e.node)]
         if not started_test:
             check.instance('F', '__close__:distinguishes-unstarted', False, where_fn(close.fn),
                            '__close__ does not test whether the task has started',
